@@ -6,7 +6,7 @@
 CONSTANTS
   BUF = 3
   MaxSends = @@MAXS@@
-  MaxSlow = 5
+  MaxSlow = @@MAXSLOW@@
   Lims = @@LIMS@@
   Classes = @@CLS@@
   Faults = @@FAULTS@@
@@ -16,6 +16,8 @@ CONSTANTS
   DevNilFwd = TRUE
   DevStaleSrc = TRUE
   DevSleepLimiter = FALSE
+  DevWriteLock = FALSE
+  DevRouteFirst = FALSE
   Gen = TRUE
   Emit = TRUE
 INIT Init
